@@ -61,6 +61,17 @@ func VerifC18_cellwidelines() {
 
 func verifC18Cell(s string) {
 	c := NewCell(s)
+	// a cell holding that cell (or a text-like item with that text) has the same text and no size
+	// override: the same agreement holds for it
+	switch vfChoice("holder", 3) {
+	case 1:
+		outer := NewCell(c)
+		verifC18Consistent(&outer, s)
+		vfTag("nested-cell")
+	case 2:
+		st := NewCell(&vfMutable{s})
+		verifC18Consistent(&st, s)
+	}
 	lines := c.Lines()
 	vfAssert(c.String() == s, "text-is-string")
 	vfAssert(c.Height() == len(lines), "height-is-line-count")
